@@ -114,6 +114,8 @@ def menu(sid):
     g += [
         {"op": "gdf", "pe": "exclude", "proj": None, "engine": "spatialpandas", "cache": False, "override": False},
         {"op": "gdf", "pe": "exclude", "proj": "pc180", "engine": "geopandas", "cache": False, "override": True},
+        {"op": "gdf", "pe": "exclude", "proj": "rob100", "engine": "spatialpandas", "cache": False, "override": False},
+        {"op": "gdf", "pe": "ignore", "proj": "rob100", "engine": "geopandas", "cache": True, "override": False},
         {"op": "gdf", "pe": "ignore", "proj": None, "engine": "spatialpandas", "cache": True, "override": True, "ret_idx": True},
     ]
     m["gdf"] = g
@@ -125,13 +127,15 @@ def menu(sid):
         {"op": "polyc", "pe": "exclude", "proj": None, "cache": False, "override": False, "ret_idx": True},
         {"op": "polyc", "pe": "split", "proj": None, "cache": True, "override": True, "ret_idx": True},
         {"op": "polyc", "pe": "exclude", "proj": "pc180", "cache": False, "override": False},
+        {"op": "polyc", "pe": "exclude", "proj": "rob100", "cache": True, "override": False},
+        {"op": "polyc", "pe": "ignore", "proj": "ortho", "cache": False, "override": False, "ret_idx": True},
     ]
     m["polyc"] = p
     ln = []
     for pe in ("exclude", "split", "ignore"):
         for proj in (None, "robinson"):
             ln.append({"op": "linec", "pe": pe, "proj": proj, "cache": True, "override": False})
-    ln += [{"op": "linec", "pe": "exclude", "proj": None, "cache": False, "override": False}, {"op": "linec", "pe": "ignore", "proj": "pc180", "cache": True, "override": True}]
+    ln += [{"op": "linec", "pe": "exclude", "proj": None, "cache": False, "override": False}, {"op": "linec", "pe": "ignore", "proj": "pc180", "cache": True, "override": True}, {"op": "linec", "pe": "exclude", "proj": "rob100", "cache": True, "override": False}, {"op": "linec", "pe": "split", "proj": "rob100", "cache": False, "override": False}]
     m["linec"] = ln
     t = []
     for coords in ("nodes", "face centers", "edge centers"):
